@@ -767,6 +767,9 @@ qb_ipcs_dispatch_connection_request(int32_t fd, int32_t revents, void *data)
 		goto dispatch_cleanup;
 	}
 
+	/* the callbacks run from here may disconnect (and so release) c */
+	qb_ipcs_connection_ref(c);
+
 	if (revents & POLLNVAL) {
 		qb_util_log(LOG_DEBUG, "NVAL conn (%s)", c->description);
 		res = -EINVAL;
@@ -861,6 +864,7 @@ dispatch_cleanup:
 	if (res != 0) {
 		qb_ipcs_disconnect(c);
 	}
+	qb_ipcs_connection_unref(c);
 	return res;
 }
 
